@@ -192,7 +192,7 @@ package go_clipper2
 //@ spec idle(c *clipperBase) bool = c.actives == nil && len(c.scanlineList) == 0 && len(c.intersectList) == 0 && len(c.outrecList) == 0 && len(c.horzSegList) == 0 && len(c.horzJoinList) == 0
 
 //@ func clipperBase.clearSolutionOnly
-//@   props C12 C17 C02 C09
+//@   props C12 C17 C02 C09 C01 C04 C05 C08 C10 C19
 //@   ensures [idle] idle(c)
 //@   ensures [what-was-added-and-configured-is-kept] c.hasOpenPaths == old(c.hasOpenPaths) && c.isSortedMinimaList == old(c.isSortedMinimaList) && c.preserveCollinear == old(c.preserveCollinear) && c.reverseSolution == old(c.reverseSolution) && c.usingPolyTree == old(c.usingPolyTree)
 //@   ensures [keeps-input] same(c.minimaList, old(c.minimaList)) && same(c.vertexList, old(c.vertexList))
@@ -1147,7 +1147,7 @@ package go_clipper2
 //@   panicfree
 
 //@ func VertexPoolList.Add
-//@   props C03 C12 C01 C17 C19
+//@   props C03 C12 C01 C17 C19 C02 C04 C05 C08 C09 C10
 //@   panicfree
 //@   inline
 //@   ensures [every-vertex-is-a-new-object-appended-to-the-pool] fresh(result) && result.pt == pt && result.flags == flags && result.prev == prev && result.next == nil && len(*vpl) == old(len(*vpl)) + 1 && (*vpl)[len(*vpl)-1] == result && forall(k, 0, old(len(*vpl)), (*vpl)[k] == old((*vpl)[k]))
@@ -1415,18 +1415,18 @@ package go_clipper2
 //@ spec tinyTri(op *OutPt) bool = op.next.next == op.prev && (closePts(op.prev.pt, op.next.pt) || closePts(op.pt, op.next.pt) || closePts(op.pt, op.prev.pt))
 
 //@ func ptsReallyClose
-//@   props C02 C03
+//@   props C02 C03 C01 C04 C05 C08 C09 C10 C17 C19
 //@   requires dom(pt1, 61) && dom(pt2, 61)
 //@   ensures [close] result == closePts(pt1, pt2)
 
 //@ func isVerySmallTriangle
-//@   props C02
+//@   props C02 C01 C04 C05 C08 C09 C10 C17 C19
 //@   requires op != nil && op.next != nil && op.prev != nil && op.next.next != nil
 //@   requires dom(op.pt, 61) && dom(op.next.pt, 61) && dom(op.prev.pt, 61)
 //@   ensures [tiny] result == tinyTri(op)
 
 //@ func isValidClosedPath
-//@   props C02
+//@   props C02 C01 C04 C05 C08 C09 C10 C17 C19
 //@   requires op == nil || (op.next != nil && op.prev != nil && op.next.next != nil && dom(op.pt, 61) && dom(op.next.pt, 61) && dom(op.prev.pt, 61))
 //@   ensures [valid] result == (op != nil && op.next != op && (op.next != op.prev || !tinyTri(op)))
 //@   ensures [at-least-2] result ==> op.next != op
@@ -1434,7 +1434,7 @@ package go_clipper2
 //@ spec ringOK(x *OutPt) bool = x != nil && x.next != nil && x.prev != nil && x.next.next != nil && dom(x.pt, 61) && dom(x.next.pt, 61) && dom(x.prev.pt, 61)
 
 //@ func clipperBase.buildPath
-//@   props C02 C09
+//@   props C02 C09 C01 C04 C05 C08 C10 C17 C19
 //@   nosafety
 //@   assumes op != nil ==> (ringOK(op) && ringOK(op.next))
 //@   loop 0 invariant [no-dups] len(*path) >= 1 && lastPt == (*path)[len(*path)-1] && forall(k, 1, len(*path), (*path)[k] != (*path)[k-1])
@@ -1648,7 +1648,7 @@ package go_clipper2
 // ---------------------------------------------------------------------------------
 
 //@ func clipperBase.baseAddPaths
-//@   props C12 C03
+//@   props C12 C03 C17 C01 C19
 //@   ensures [resort-needed] !c.isSortedMinimaList
 //@   ensures [open-flag] isOpen ==> c.hasOpenPaths
 
@@ -1680,7 +1680,7 @@ package go_clipper2
 //@   assert after co [scaled-parameters] co != nil && co.ArcTolerance == pow10(cfg.precision)*cfg.arcTolerance && co.MiterLimit == ite(cfg.miterLimit == 0, 2.0, cfg.miterLimit) && !co.PreserveCollinear && !co.ReverseSolution
 
 //@ func fixOutRecPts
-//@   props C02 C17 C04
+//@   props C02 C17 C04 C01 C05 C08 C09 C10 C19
 //@   nosafety
 //@   assumes outrec != nil
 //@   loop 0 invariant [only-to-outrec] forallp(x, OutPt, x.outrec == old(x.outrec) || x.outrec == outrec) && start == outrec.pts && outrec.pts == old(outrec.pts)
@@ -1692,7 +1692,7 @@ package go_clipper2
 // doSplitOp replaces the two crossing edges' shared stretch by the crossing point: the node it
 // splices in never repeats the vertex before or after it (C02: no two consecutive equal vertices)
 //@ func clipperBase.doSplitOp
-//@   props C02
+//@   props C02 C01 C04 C05 C08 C09 C10 C17 C19
 //@   nosafety
 //@   requires outrec != nil && splitOp != nil && splitOp.prev != nil && splitOp.next != nil && splitOp.next.next != nil
 //@   requires splitOp.prev != splitOp && splitOp.prev != splitOp.next && splitOp.next != splitOp && splitOp.next.next != splitOp && splitOp.next.next != splitOp.next && splitOp.next.next != splitOp.prev
@@ -1701,7 +1701,7 @@ package go_clipper2
 //@   ensures [ring-closed-at-the-splice] outrec.pts != nil ==> (old(splitOp.next.next).prev == old(splitOp.prev).next || old(splitOp.next.next).prev == old(splitOp.prev))
 
 //@ func clipperBase.processHorzJoins
-//@   props C02 C17 C04
+//@   props C02 C17 C04 C01 C05 C08 C09 C10 C19
 //@   nosafety
 //@   loop 0 step [split-rings-own-their-entry-points] (!c.usingPolyTree && or2.pts != nil && or2.owner == or1 && or1 != or2 && old(or1.pts != nil && or1.pts.outrec == or1 && j.op1.next != j.op1 && j.op1 != nil) && old(len(c.outrecList)) < len(c.outrecList)) ==> (or1.pts.outrec == or1 && or2.pts.outrec == or2)
 //@   loop 0 step [tree-split-ring-gets-an-owner] (c.usingPolyTree && old(len(c.outrecList)) < len(c.outrecList)) ==> (or2 != or1 && (or2.owner == or1 || or2.owner == or1.owner))
@@ -1717,25 +1717,25 @@ package go_clipper2
 //@ spec openEdge(ae *Active) bool = ae.localMin.IsOpen
 
 //@ func newOutPt
-//@   props C02 C03
+//@   props C02 C03 C01 C04 C05 C08 C09 C10 C17 C19
 //@   panicfree
 
 //@ func disposeOutPt
-//@   props C02 C03
+//@   props C02 C03 C01 C04 C05 C08 C09 C10 C17 C19
 //@   requires op != nil && op.next != nil && op.prev != nil
 //@   ensures [unlinked] linked(old(op.prev), old(op.next))
 //@   ensures [successor] result == ite(old(op.next) == op, nil, old(op.next))
 //@   ensures [other-nodes-untouched] forallp(q, OutPt, (q != old(op.prev) ==> q.next == old(q.next)) && (q != old(op.next) ==> q.prev == old(q.prev)))
 
 //@ func duplicateOp
-//@   props C02 C03
+//@   props C02 C03 C01 C04 C05 C08 C09 C10 C17 C19
 //@   requires op != nil && op.next != nil && op.prev != nil
 //@   ensures [copy] result != nil && result != op && result.pt == op.pt && result.outrec == op.outrec
 //@   ensures [after] insertAfter ==> (linked(op, result) && linked(result, ite(old(op.next) == op, op, old(op.next))))
 //@   ensures [before] !insertAfter ==> (linked(result, op) && linked(ite(old(op.prev) == op, op, old(op.prev)), result))
 
 //@ func addOutPt
-//@   props C02 C03
+//@   props C02 C03 C01 C04 C05 C08 C09 C10 C17 C19
 //@   assumes ae != nil && ae.outrec != nil && ae.outrec.pts != nil && ae.outrec.pts.next != nil
 //@   ensures [front-duplicate-skipped] (old(ae == ae.outrec.frontEdge) && pt == old(ae.outrec.pts.pt)) ==> (result == old(ae.outrec.pts) && ae.outrec.pts == old(ae.outrec.pts) && old(ae.outrec.pts).next == old(ae.outrec.pts.next))
 //@   ensures [back-duplicate-skipped] (!old(ae == ae.outrec.frontEdge) && pt == old(ae.outrec.pts.next.pt)) ==> (result == old(ae.outrec.pts.next) && ae.outrec.pts == old(ae.outrec.pts))
@@ -1746,7 +1746,7 @@ package go_clipper2
 //@   ensures [new-node-is-fresh] !((old(ae == ae.outrec.frontEdge) && pt == old(ae.outrec.pts.pt)) || (!old(ae == ae.outrec.frontEdge) && pt == old(ae.outrec.pts.next.pt))) ==> fresh(result)
 
 //@ func swapOutrecs
-//@   props C02 C03
+//@   props C02 C03 C01 C04 C05 C08 C09 C10 C17 C19
 //@   requires ae1 != nil && ae2 != nil && ae1 != ae2
 //@   ensures [same-record-flips-sides] (old(ae1.outrec) != nil && old(ae1.outrec) == old(ae2.outrec)) ==> (ae1.outrec == old(ae1.outrec) && ae2.outrec == old(ae2.outrec) && ae1.outrec.frontEdge == old(ae1.outrec.backEdge) && ae1.outrec.backEdge == old(ae1.outrec.frontEdge))
 //@   ensures [records-exchanged] !(old(ae1.outrec) != nil && old(ae1.outrec) == old(ae2.outrec)) ==> (ae1.outrec == old(ae2.outrec) && ae2.outrec == old(ae1.outrec))
@@ -1770,7 +1770,7 @@ package go_clipper2
 //@   ensures [unlinked] !(old(ae.prevInAEL) == nil && old(ae.nextInAEL) == nil && old(c.actives) != ae) ==> ((old(ae.prevInAEL) != nil ==> old(ae.prevInAEL).nextInAEL == old(ae.nextInAEL)) && (old(ae.nextInAEL) != nil ==> old(ae.nextInAEL).prevInAEL == old(ae.prevInAEL)) && (old(ae.prevInAEL) == nil ==> c.actives == old(ae.nextInAEL)))
 
 //@ func clipperBase.checkJoinRight
-//@   props C03 C09 C02
+//@   props C03 C09 C02 C01 C04 C05 C08 C10 C17 C19
 //@   nosafety
 //@   assumes dom(pt, 29) && dom(e.top, 29) && dom(e.bot, 29) && (e.nextInAEL != nil ==> (dom(e.nextInAEL.top, 29) && dom(e.nextInAEL.bot, 29)))
 //@   requires e != nil && e.localMin != nil && (e.nextInAEL != nil ==> e.nextInAEL.localMin != nil)
@@ -1778,7 +1778,7 @@ package go_clipper2
 //@   ensures [at-a-crossing-a-join-needs-the-point-on-the-neighbours-line] (checkCurrX && old(e.nextInAEL) != nil && PerpendicDistFromLineSqr64(pt, old(e.nextInAEL.bot), old(e.nextInAEL.top)) > 0.25) ==> (e.joinWith == old(e.joinWith) && old(e.nextInAEL).joinWith == old(e.nextInAEL.joinWith) && e.outrec == old(e.outrec))
 
 //@ func clipperBase.checkJoinLeft
-//@   props C03 C09 C02
+//@   props C03 C09 C02 C01 C04 C05 C08 C10 C17 C19
 //@   nosafety
 //@   assumes dom(pt, 29) && dom(e.top, 29) && dom(e.bot, 29) && (e.prevInAEL != nil ==> (dom(e.prevInAEL.top, 29) && dom(e.prevInAEL.bot, 29)))
 //@   requires e != nil && e.localMin != nil && (e.prevInAEL != nil ==> e.prevInAEL.localMin != nil)
@@ -1786,7 +1786,7 @@ package go_clipper2
 //@   ensures [at-a-crossing-a-join-needs-the-point-on-the-neighbours-line] (checkCurrX && old(e.prevInAEL) != nil && PerpendicDistFromLineSqr64(pt, old(e.prevInAEL.bot), old(e.prevInAEL.top)) > 0.25) ==> (e.joinWith == old(e.joinWith) && old(e.prevInAEL).joinWith == old(e.prevInAEL.joinWith) && e.outrec == old(e.outrec))
 
 //@ func clipperBase.addLocalMinPoly
-//@   props C02 C04 C09
+//@   props C02 C04 C09 C01 C05 C08 C10 C17 C19
 //@   nosafety
 //@   assumes ae1 != nil && ae2 != nil && ae1.localMin != nil
 //@   ensures [new-record] result != nil && ae1.outrec != nil && ae1.outrec == ae2.outrec && ae1.outrec.pts == result && result.pt == pt && result.next == result && result.prev == result && result.outrec == ae1.outrec
@@ -2081,7 +2081,7 @@ package go_clipper2
 //@   ensures [predecessor-relinked] old(ae2.prevInSEL) != nil ==> old(ae2.prevInSEL).nextInSEL == ae1
 
 //@ func uncoupleOutRec
-//@   props C02 C03 C09
+//@   props C02 C03 C09 C01 C04 C05 C08 C10 C17 C19
 //@   requires ae != nil
 //@   ensures [no-ring-noop] old(ae.outrec) == nil ==> ae.outrec == nil
 //@   ensures [ring-has-no-edges] old(ae.outrec) != nil ==> (old(ae.outrec).frontEdge == nil && old(ae.outrec).backEdge == nil)
@@ -2091,14 +2091,14 @@ package go_clipper2
 //@   ensures [other-edges-untouched] forallp(e, Active, (old(ae.outrec) == nil || (e != old(ae.outrec.frontEdge) && e != old(ae.outrec.backEdge))) ==> e.outrec == old(e.outrec))
 
 //@ func swapFrontBackSides
-//@   props C02 C03 C09
+//@   props C02 C03 C09 C01 C04 C05 C08 C10 C17 C19
 //@   requires outrec != nil
 //@   ensures [sides-swapped] outrec.frontEdge == old(outrec.backEdge) && outrec.backEdge == old(outrec.frontEdge)
 //@   ensures [entry-advanced] (old(outrec.pts) != nil ==> outrec.pts == old(outrec.pts.next)) && (old(outrec.pts) == nil ==> outrec.pts == nil)
 //@   ensures [other-records-untouched] forallp(r, OutRec, r != outrec ==> (r.pts == old(r.pts) && r.frontEdge == old(r.frontEdge) && r.backEdge == old(r.backEdge)))
 
 //@ func clipperBase.startOpenPath
-//@   props C09 C03 C02
+//@   props C09 C03 C02 C01 C04 C05 C08 C10 C17 C19
 //@   requires ae != nil
 //@   ensures [new-open-ring] result != nil && ae.outrec != nil && ae.outrec.isOpen && ae.outrec.pts == result && result.pt == pt && result.outrec == ae.outrec && result.next == result && result.prev == result
 //@   ensures [side-by-direction] (ae.windDx > 0 ==> (ae.outrec.frontEdge == ae && ae.outrec.backEdge == nil)) && (ae.windDx <= 0 ==> (ae.outrec.frontEdge == nil && ae.outrec.backEdge == ae))
@@ -2106,7 +2106,7 @@ package go_clipper2
 //@   ensures [other-edges-untouched] forallp(e, Active, e != ae ==> e.outrec == old(e.outrec))
 
 //@ func clipperBase.joinOutrecPaths
-//@   props C02 C03 C09
+//@   props C02 C03 C09 C01 C04 C05 C08 C10 C17 C19
 //@   assumes ae1 != nil && ae2 != nil && ae1 != ae2 && ae1.outrec != nil && ae2.outrec != nil && ae1.outrec != ae2.outrec
 //@   assumes ae1.localMin != nil && ae1.vertexTop != nil
 //@   assumes ae1.outrec.pts != nil && ae2.outrec.pts != nil && ae1.outrec.pts.next != nil && ae2.outrec.pts.next != nil
@@ -2129,7 +2129,7 @@ package go_clipper2
 // a local maximum closes a ring (both edges on the same record) or joins two rings; afterwards
 // neither edge is hot, and two closed edges on the same side of one record are reported as an error
 //@ func clipperBase.addLocalMaxPoly
-//@   props C02 C03 C09 C04
+//@   props C02 C03 C09 C04 C01 C05 C08 C10 C17 C19
 //@   nosafety
 //@   assumes ae1 != nil && ae2 != nil && ae1 != ae2 && ae1.localMin != nil && ae2.localMin != nil && ae1.vertexTop != nil && ae2.vertexTop != nil
 //@   assumes ae1.joinWith == JoinNone && ae2.joinWith == JoinNone && ae1.outrec != nil && ae2.outrec != nil
@@ -2306,7 +2306,7 @@ package go_clipper2
 //@   ensures [front-edge-of-its-record] result == (ae.outrec.frontEdge == ae)
 
 //@ func outrecIsAscending
-//@   props C02 C03
+//@   props C02 C03 C01 C04 C05 C08 C09 C10 C17 C19
 //@   inline
 //@   requires hotEdge != nil && hotEdge.outrec != nil
 //@   ensures [front-edge-of-its-record] result == (hotEdge.outrec.frontEdge == hotEdge)
@@ -2366,13 +2366,13 @@ package go_clipper2
 //@   ensures [top-vertex-is-a-local-max] result == ((ae.vertexTop.flags & LocalMax) != None)
 
 //@ func isJoined
-//@   props C02 C03
+//@   props C02 C03 C01 C04 C05 C08 C09 C10 C17 C19
 //@   inline
 //@   requires e != nil
 //@   ensures [joined-to-a-neighbour] result == (e.joinWith != JoinNone)
 
 //@ func setSides
-//@   props C02 C03
+//@   props C02 C03 C01 C04 C05 C08 C09 C10 C17 C19
 //@   inline
 //@   requires outrec != nil
 //@   ensures [front-then-back] outrec.frontEdge == startEdge && outrec.backEdge == endEdge
@@ -2385,7 +2385,7 @@ package go_clipper2
 //@   ensures [neighbours-either-way] result == (inode.edge1.nextInAEL == inode.edge2 || inode.edge1.prevInAEL == inode.edge2)
 
 //@ func getLastOp
-//@   props C02 C03
+//@   props C02 C03 C01 C04 C05 C08 C09 C10 C17 C19
 //@   inline
 //@   requires hotEdge != nil && (hotEdge.outrec != nil ==> hotEdge.outrec.pts != nil)
 //@   ensures [cold-edge-has-none] hotEdge.outrec == nil ==> result == nil
@@ -2398,19 +2398,19 @@ package go_clipper2
 //@   ensures [same-vertex] result == (l.Vertex == r.Vertex)
 
 //@ func pointsEqual
-//@   props C02 C03
+//@   props C02 C03 C01 C04 C05 C08 C09 C10 C17 C19
 //@   inline
 //@   ensures [both-coordinates] result == (p1.X == p2.X && p1.Y == p2.Y)
 
 //@ func SwapFrontBackSides
-//@   props C02 C03 C09
+//@   props C02 C03 C09 C01 C04 C05 C08 C10 C17 C19
 //@   inline
 //@   requires outrec != nil
 //@   ensures [sides-swapped] outrec.frontEdge == old(outrec.backEdge) && outrec.backEdge == old(outrec.frontEdge)
 //@   ensures [entry-advanced] (old(outrec.pts) != nil ==> outrec.pts == old(outrec.pts.next)) && (old(outrec.pts) == nil ==> outrec.pts == nil)
 
 //@ func swapOutRecs
-//@   props C02 C03
+//@   props C02 C03 C01 C04 C05 C08 C09 C10 C17 C19
 //@   inline
 //@   requires ae1 != nil && ae2 != nil && ae1 != ae2
 //@   ensures [same-record-flips-sides] (old(ae1.outrec) != nil && old(ae1.outrec) == old(ae2.outrec)) ==> (ae1.outrec == old(ae1.outrec) && ae2.outrec == old(ae2.outrec) && ae1.outrec.frontEdge == old(ae1.outrec.backEdge) && ae1.outrec.backEdge == old(ae1.outrec.frontEdge))
@@ -2455,7 +2455,7 @@ package go_clipper2
 //@   ensures [head-owned] op.ownerIdx == newIdx
 
 //@ func getRealOutRec
-//@   props C04 C02 C03
+//@   props C04 C02 C03 C01 C05 C08 C09 C10 C17 C19
 //@   panicfree
 //@   loop 0 invariant [walk] (old(outRec) != nil && old(outRec).pts != nil) ==> outRec == old(outRec)
 //@   ensures [has-points-or-none] result == nil || result.pts != nil
@@ -2470,7 +2470,7 @@ package go_clipper2
 //@   ensures [direct-child-is-not] (old(testOwner) != nil && old(testOwner) != outRec && old(testOwner).owner == outRec && outRec != nil) ==> !result
 
 //@ func getPrevHotEdge
-//@   props C04 C02 C03
+//@   props C04 C02 C03 C01 C05 C08 C09 C10 C17 C19
 //@   nosafety
 //@   assumes ae != nil && forallp(e, Active, e.localMin != nil)
 //@   loop 0 invariant [walk] ((ae.prevInAEL != nil && ae.prevInAEL.outrec != nil && !ae.prevInAEL.localMin.IsOpen) ==> prev == ae.prevInAEL) && (ae.prevInAEL == nil ==> prev == nil)
@@ -2509,6 +2509,7 @@ package go_clipper2
 //@   assumes horz != nil
 //@   loop 0 invariant [walk] true
 //@   ensures [left-not-right-of-right] result0 <= result1
+//@   assert after return#0 [a-zero-length-horizontal-heads-right-only-when-its-maxima-partner-stands-to-the-right] ae == nil || ae.vertexTop == vertexMax
 //@   ensures [span-is-current-x-to-top-x] horz.bot.X != horz.top.X ==> (result0 == min(horz.curX, horz.top.X) && result1 == max(horz.curX, horz.top.X))
 //@   ensures [zero-length-horizontal-stays-put] horz.bot.X == horz.top.X ==> (result0 == horz.curX && result1 == horz.curX)
 //@   ensures [heading] horz.bot.X != horz.top.X ==> result2 == (horz.curX < horz.top.X)
@@ -2525,7 +2526,7 @@ package go_clipper2
 // its neighbours, and a vertex the scan passes over differs from both neighbours - so when the scan completes a
 // round without removing anything, no two consecutive vertices of the ring are equal
 //@ func clipperBase.cleanCollinear
-//@   props C02 C03
+//@   props C02 C03 C01 C04 C05 C08 C09 C10 C17 C19
 //@   nosafety
 //@   assumes forallp(q, OutPt, q.next != nil && q.prev != nil && dom(q.pt, 29))
 //@   assumes forallp(q, OutRec, q.pts == nil || q.pts.next != nil)
@@ -2607,7 +2608,7 @@ package go_clipper2
 // convertHorzSegsToJoins (C02, C17): a join is recorded only for two horizontal segments that run in opposite
 // directions and whose X ranges properly overlap, and at most one per pair
 //@ func clipperBase.convertHorzSegsToJoins
-//@   props C02 C17 C03
+//@   props C02 C17 C03 C01 C04 C05 C08 C09 C10 C19
 //@   nosafety
 //@   opaque clipperBase.updateHorzSegment duplicateOp
 //@   loop 1.0 step [only-overlapping-segments-of-opposite-direction-are-joined] len(c.horzJoinList) != old(len(c.horzJoinList)) ==> (len(c.horzJoinList) == old(len(c.horzJoinList)) + 1 && old(c.horzSegList[j].leftToRight != hs1.leftToRight && c.horzSegList[j].leftOp.pt.X < hs1.rightOp.pt.X && c.horzSegList[j].rightOp.pt.X > hs1.leftOp.pt.X))
@@ -2765,14 +2766,14 @@ package go_clipper2
 //@   ensures [inclusive-collinear-segments-are-no-crossing] (inclusive && cross(seg1a, seg2a, seg2b) == 0 && cross(seg1b, seg2a, seg2b) == 0 && cross(seg2a, seg1a, seg1b) == 0 && cross(seg2b, seg1a, seg1b) == 0) ==> !result
 
 //@ func setHorzSegHeadingForward
-//@   props C02 C17 C03
+//@   props C02 C17 C03 C01 C04 C05 C08 C09 C10 C19
 //@   requires hs != nil && opP != nil && opN != nil
 //@   ensures [a-segment-of-zero-width-has-no-heading] opP.pt.X == opN.pt.X ==> (!result && hs.leftOp == old(hs.leftOp) && hs.rightOp == old(hs.rightOp))
 //@   ensures [left-end-is-the-end-with-the-smaller-x] opP.pt.X != opN.pt.X ==> (result && hs.leftOp.pt.X < hs.rightOp.pt.X && hs.leftToRight == (opP.pt.X < opN.pt.X) && ((hs.leftOp == opP && hs.rightOp == opN) || (hs.leftOp == opN && hs.rightOp == opP)))
 
 // horzSegSort: usable (right end set) segments sort before unusable ones, and a segment equals itself
 //@ func horzSegSort
-//@   props C17 C02 C03
+//@   props C17 C02 C03 C01 C04 C05 C08 C09 C10 C19
 //@   nosafety
 //@   assumes (hs1 != nil && hs1.rightOp != nil ==> hs1.leftOp != nil) && (hs2 != nil && hs2.rightOp != nil ==> hs2.leftOp != nil)
 //@   ensures [usable-segments-come-first] (hs1 != nil && hs2 != nil && hs1.rightOp != nil && hs2.rightOp == nil) ==> result < 0
@@ -2781,7 +2782,7 @@ package go_clipper2
 
 // split: a joined pair is separated - both edges lose their join mark - and starts a new output ring at the point
 //@ func clipperBase.split
-//@   props C02 C03
+//@   props C02 C03 C01 C04 C05 C08 C09 C10 C17 C19
 //@   nosafety
 //@   assumes e != nil && e.joinWith != JoinNone && e.localMin != nil && (e.joinWith == JoinRight ==> (e.nextInAEL != nil && e.nextInAEL != e)) && (e.joinWith != JoinRight ==> (e.prevInAEL != nil && e.prevInAEL != e && e.prevInAEL.localMin != nil))
 //@   ensures [both-partners-lose-the-join-mark] e.joinWith == JoinNone && (old(e.joinWith) == JoinRight ==> e.nextInAEL.joinWith == JoinNone) && (old(e.joinWith) != JoinRight ==> e.prevInAEL.joinWith == JoinNone)
@@ -2799,7 +2800,7 @@ package go_clipper2
 
 // addToHorzSegList: only points of closed output rings are recorded as horizontal segment ends
 //@ func clipperBase.addToHorzSegList
-//@   props C02 C09 C03
+//@   props C02 C09 C03 C01 C04 C05 C08 C10 C17 C19
 //@   nosafety
 //@   assumes op != nil && op.outrec != nil
 //@   ensures [open-rings-have-no-horizontal-joins] op.outrec.isOpen ==> len(c.horzSegList) == old(len(c.horzSegList))
@@ -2808,7 +2809,7 @@ package go_clipper2
 // updateHorzSegment: a segment is usable only if its ends differ in X and its left end is not already the left end
 // of another segment; an unusable segment has no right end
 //@ func clipperBase.updateHorzSegment
-//@   props C02 C17 C03
+//@   props C02 C17 C03 C01 C04 C05 C08 C09 C10 C19
 //@   nosafety
 //@   assumes hs != nil && forallp(q, OutPt, q.next != nil && q.prev != nil)
 //@   loop 0 invariant [on-the-level] opP != nil && opP.pt.Y == currY && opN != nil && opN.pt.Y == currY
